@@ -1,15 +1,168 @@
-/- T2N.Model.Es — STUB (to be replaced by the model of src/lang/es/mod.rs) -/
+/-
+  T2N.Model.Es — model of `src/lang/es/mod.rs` (struct `Spanish`).
+-/
 import T2N.Model.Lang
 
 namespace T2N.Es
 
+/-- `lemmatize`. Rust: `if word.ends_with("os") && word != "dos" || word.ends_with("as")`
+(`&&` binds tighter than `||`) strip *all* trailing `s` (`trim_end_matches('s')`);
+`else if word.ends_with("es") && word != "tres"` strip the string `"es"` repeatedly. -/
+def lemmatize (w : Word) : Word :=
+  if (endsWith w w!"os" && w != w!"dos") || endsWith w w!"as" then trimEndBy (· == 's') w
+  else if endsWith w w!"es" && w != w!"tres" then trimEndStr w!"es" w
+  else w
+
+/-- units: `if b.peek(2) != b"10" && b.peek(2) != b"20" => b.put(d)` -/
+def unit (d : Nat) : Act :=
+  .when (.and (.neg (.peekEq 2 [1, 0])) (.neg (.peekEq 2 [2, 0]))) (.put [d])
+
+/-- `"mil" | … if b.is_range_free(3, 5) => if b.peek(2) == b"1" { Err(Overlap) } else { b.shift(3) }` -/
+def mil : Act :=
+  .when (.rangeFree 3 5) (.ite (.peekEq 2 [1]) (.fail .overlap) (.shift 3))
+
+def millon : Act := .when (.rangeFree 6 8) (.shift 6)
+
+/-- lemma ↦ instruction (the `match lemmatize(num_func) { … }` of `apply`).
+No lemma occurs in two arms ("segundo" and "segunda" are distinct arms), so a failing guard
+falls through to `_ => Err(NaN)`. -/
+def vocab : List (Word × Act) := [
+  (w!"cero", .put [0]),
+  (w!"un", unit 1), (w!"uno", unit 1), (w!"una", unit 1),
+  (w!"primer", .put [1]), (w!"primero", .put [1]), (w!"primera", .put [1]),
+  (w!"dos", unit 2),
+  (w!"segundo", .when .markerOrd (.put [2])),
+  (w!"segunda", .put [2]),
+  (w!"tres", unit 3),
+  (w!"tercer", .put [3]), (w!"tercero", .put [3]), (w!"tercera", .put [3]),
+  (w!"cuatro", unit 4),
+  (w!"cuarto", .put [4]), (w!"cuarta", .put [4]),
+  (w!"cinco", unit 5),
+  (w!"quinto", .put [5]), (w!"quinta", .put [5]),
+  (w!"seis", unit 6),
+  (w!"sexto", .put [6]), (w!"sexta", .put [6]),
+  (w!"siete", unit 7),
+  (w!"séptimo", .put [7]), (w!"séptima", .put [7]),
+  (w!"ocho", unit 8),
+  (w!"octavo", .put [8]), (w!"octava", .put [8]),
+  (w!"nueve", unit 9),
+  (w!"noveno", .put [9]), (w!"novena", .put [9]),
+  (w!"diez", .put [1,0]), (w!"décimo", .put [1,0]), (w!"décima", .put [1,0]),
+  (w!"once", .put [1,1]), (w!"undécimo", .put [1,1]), (w!"undécima", .put [1,1]),
+  (w!"decimoprimero", .put [1,1]), (w!"decimoprimera", .put [1,1]), (w!"onceavo", .put [1,1]),
+  (w!"doce", .put [1,2]), (w!"duodécimo", .put [1,2]), (w!"duodécima", .put [1,2]),
+  (w!"decimosegundo", .put [1,2]), (w!"decimosegunda", .put [1,2]), (w!"doceavo", .put [1,2]),
+  (w!"trece", .put [1,3]), (w!"decimotercero", .put [1,3]), (w!"decimotercera", .put [1,3]),
+  (w!"treceavo", .put [1,3]),
+  (w!"catorce", .put [1,4]), (w!"decimocuarto", .put [1,4]), (w!"decimocuarta", .put [1,4]),
+  (w!"catorceavo", .put [1,4]),
+  (w!"quince", .put [1,5]), (w!"decimoquinto", .put [1,5]), (w!"decimoquinta", .put [1,5]),
+  (w!"quinceavo", .put [1,5]),
+  (w!"dieciseis", .put [1,6]), (w!"dieciséis", .put [1,6]), (w!"decimosexto", .put [1,6]),
+  (w!"decimosexta", .put [1,6]), (w!"deciseisavo", .put [1,6]),
+  (w!"diecisiete", .put [1,7]), (w!"decimoséptimo", .put [1,7]), (w!"decimoséptima", .put [1,7]),
+  (w!"diecisieteavo", .put [1,7]),
+  (w!"dieciocho", .put [1,8]), (w!"decimoctavo", .put [1,8]), (w!"decimoctava", .put [1,8]),
+  (w!"dieciochoavo", .put [1,8]),
+  (w!"diecinueve", .put [1,9]), (w!"decimonoveno", .put [1,9]), (w!"decimonovena", .put [1,9]),
+  (w!"decinueveavo", .put [1,9]),
+  (w!"veinte", .put [2,0]), (w!"vigésimo", .put [2,0]), (w!"vigésima", .put [2,0]),
+  (w!"veintavo", .put [2,0]), (w!"veinteavo", .put [2,0]),
+  (w!"veintiuno", .put [2,1]), (w!"veintiuna", .put [2,1]), (w!"veintiún", .put [2,1]),
+  (w!"veintiunoavo", .put [2,1]),
+  (w!"veintidós", .put [2,2]), (w!"veintidos", .put [2,2]), (w!"veintidosavo", .put [2,2]),
+  (w!"veintitrés", .put [2,3]), (w!"veintitres", .put [2,3]), (w!"veintitresavo", .put [2,3]),
+  (w!"veinticuatro", .put [2,4]), (w!"veinticuatroavo", .put [2,4]),
+  (w!"veinticinco", .put [2,5]), (w!"veinticincoavo", .put [2,5]),
+  (w!"veintiseis", .put [2,6]), (w!"veintiséis", .put [2,6]), (w!"veintiseisavo", .put [2,6]),
+  (w!"veintisiete", .put [2,7]), (w!"veintisieteavo", .put [2,7]),
+  (w!"veintiocho", .put [2,8]), (w!"veintiochoavo", .put [2,8]),
+  (w!"veintinueve", .put [2,9]), (w!"veintinueveavo", .put [2,9]),
+  (w!"treinta", .put [3,0]), (w!"trigésimo", .put [3,0]), (w!"trigésima", .put [3,0]),
+  (w!"treintavo", .put [3,0]),
+  (w!"cuarenta", .put [4,0]), (w!"cuadragésimo", .put [4,0]), (w!"cuadragésima", .put [4,0]),
+  (w!"cuarentavo", .put [4,0]),
+  (w!"cincuenta", .put [5,0]), (w!"quincuagésimo", .put [5,0]), (w!"quincuagésima", .put [5,0]),
+  (w!"cincuentavo", .put [5,0]),
+  (w!"sesenta", .put [6,0]), (w!"sexagésimo", .put [6,0]), (w!"sexagésima", .put [6,0]),
+  (w!"sesentavo", .put [6,0]),
+  (w!"setenta", .put [7,0]), (w!"septuagésimo", .put [7,0]), (w!"septuagésima", .put [7,0]),
+  (w!"setentavo", .put [7,0]),
+  (w!"ochenta", .put [8,0]), (w!"octogésimo", .put [8,0]), (w!"octogésima", .put [8,0]),
+  (w!"ochentavo", .put [8,0]),
+  (w!"noventa", .put [9,0]), (w!"nonagésimo", .put [9,0]), (w!"nonagésima", .put [9,0]),
+  (w!"noventavo", .put [9,0]),
+  (w!"cien", .put [1,0,0]), (w!"ciento", .put [1,0,0]), (w!"cienta", .put [1,0,0]),
+  (w!"centésimo", .put [1,0,0]), (w!"centésima", .put [1,0,0]), (w!"centavo", .put [1,0,0]),
+  (w!"dosciento", .put [2,0,0]), (w!"doscienta", .put [2,0,0]),
+  (w!"ducentésimo", .put [2,0,0]), (w!"ducentésima", .put [2,0,0]),
+  (w!"tresciento", .put [3,0,0]), (w!"trescienta", .put [3,0,0]),
+  (w!"tricentésimo", .put [3,0,0]), (w!"tricentésima", .put [3,0,0]),
+  (w!"cuatrociento", .put [4,0,0]), (w!"cuatrocienta", .put [4,0,0]),
+  (w!"cuadringentésimo", .put [4,0,0]), (w!"cuadringentésima", .put [4,0,0]),
+  (w!"quadringentésimo", .put [4,0,0]), (w!"quadringentésima", .put [4,0,0]),
+  (w!"quiniento", .put [5,0,0]), (w!"quinienta", .put [5,0,0]),
+  (w!"quingentésimo", .put [5,0,0]), (w!"quingentésima", .put [5,0,0]),
+  (w!"seisciento", .put [6,0,0]), (w!"seiscienta", .put [6,0,0]),
+  (w!"sexcentésimo", .put [6,0,0]), (w!"sexcentésima", .put [6,0,0]),
+  (w!"seteciento", .put [7,0,0]), (w!"setecienta", .put [7,0,0]),
+  (w!"septingentésimo", .put [7,0,0]), (w!"septingentésima", .put [7,0,0]),
+  (w!"ochociento", .put [8,0,0]), (w!"ochocienta", .put [8,0,0]),
+  (w!"octingentésimo", .put [8,0,0]), (w!"octingentésima", .put [8,0,0]),
+  (w!"noveciento", .put [9,0,0]), (w!"novecienta", .put [9,0,0]),
+  (w!"noningentésimo", .put [9,0,0]), (w!"noningentésima", .put [9,0,0]),
+  (w!"mil", mil), (w!"milésimo", mil), (w!"milésima", mil),
+  (w!"millon", millon), (w!"millón", millon), (w!"millonésimo", millon), (w!"millonésima", millon),
+  (w!"y", .when (.lenGe 2) (.fail .incomplete))
+]
+
+def mascOrdinals : List Word := [
+  w!"primero", w!"segundo", w!"tercero", w!"cuarto", w!"quinto", w!"sexto", w!"séptimo",
+  w!"octavo", w!"ctavo", w!"noveno"]
+
+def femOrdinals : List Word := [
+  w!"primera", w!"segunda", w!"tercera", w!"cuarta", w!"quinta", w!"sexta", w!"séptima",
+  w!"octava", w!"ctava", w!"novena"]
+
+/-- `get_morph_marker` -/
+def morph (w : Word) : Marker :=
+  let sing := trimStartStr w!"decimo" (lemmatize w)
+  let isPlur := endsWith w w!"s"
+  if sing == w!"primer" then .ordinal .esPrimer
+  else if mascOrdinals.contains sing then .ordinal (if isPlur then .mos else .mo)
+  else if femOrdinals.contains sing then .ordinal (if isPlur then .fas else .fa)
+  else if endsWith sing w!"imo" then .ordinal (if isPlur then .mos else .mo)
+  else if endsWith sing w!"ima" then .ordinal (if isPlur then .fas else .fa)
+  else if endsWith sing w!"avo" then .fraction .avo
+  else .none
+
+/-- `apply` -/
+def apply (w : Word) (b : DS) : Res × DS :=
+  let numMarker := morph w
+  if !b.isEmpty && numMarker != b.marker && !numMarker.isFraction then (some .overlap, b)
+  else
+    let act := (vocab.lookup (lemmatize w)).getD (.fail .nan)
+    let (r, b', _) := act.exec b
+    if r.isNone then
+      let b'' := { b' with marker := numMarker }
+      (r, if numMarker.isFraction then b''.freeze else b'')
+    else (r, b')
+
+/-- `apply_decimal` = `apply` -/
+def applyDecimal (w : Word) (b : DS) : Res × DS := apply w b
+
+def insignificant : List Word := [
+  w!"pues", w!"y", w!"digo", w!"o", w!"sea", w!"entonces", w!"así", w!"que", w!"bueno", w!"es",
+  w!"eso", w!"en", w!"fin", w!"luego", w!"mas", w!"menos", w!"pero", w!"vale", w!"eh", w!"ah",
+  w!"oye", w!"ya", w!"hum", w!"ok", w!"sí", w!"no", w!"con", w!"son"]
+
 def lang : Lang where
   code := "es"
-  apply := fun _ b => (some .nan, b)
-  applyDecimal := fun _ b => (some .nan, b)
-  morph := fun _ => .none
-  isDecSep := fun _ => false
+  apply := apply
+  applyDecimal := applyDecimal
+  morph := morph
+  isDecSep := fun w => w == w!"coma"
   decMark := ','
-  isLinking := fun _ => false
+  isLinking := fun w => insignificant.contains w
 
 end T2N.Es
